@@ -16,3 +16,10 @@ def c07_delta_then_apply(base, curr):
     from clematis.engine.util.snapshot_delta import compute_delta, apply_delta
     delta = compute_delta(base, curr)
     return delta, apply_delta(base, delta)
+
+
+def c06_store_roundtrip(store, fresh):
+    """export the weights of `store`, import them into the store `fresh`"""
+    from clematis.engine.snapshot import _export_store_for_snapshot, _import_store_from_snapshot
+    snap = _export_store_for_snapshot(store)
+    return _import_store_from_snapshot(fresh, snap)
